@@ -953,3 +953,163 @@ def fmt_tag(t):
         if t[0] == 'slice':
             return f'{fmt_tag(t[1])}[{t[2]}]'
     return str(t)
+
+
+# ================================================================================ E5e: rank kinds
+# 0 scalar, 1 rank-1 array, 2 rank-2 array; ('tuple', ...) ; TOP unknown
+class RankKind(AbsInt):
+    """Array rank of values, to check the scalar contracts of NumPy >= 2 (no implicit conversion of a
+    size-1 array to a Python scalar)."""
+
+    def __init__(self, ctx):
+        super().__init__(ctx)
+        self.param_ranks = {}
+
+    def const(self, node, fr):
+        return 0
+
+    def param(self, name, fr):
+        if name in fr.params:
+            v = fr.params[name]
+            return v
+        return self.param_ranks.get((fr.fn.qualname, name), TOP)
+
+    def global_name(self, dotted, node, fr):
+        if dotted in ('copulas.utils.EPSILON', 'numpy.inf', 'numpy.pi', 'numpy.e', 'numpy.nan'):
+            return 0
+        return TOP
+
+    def self_attr(self, attr, node, fr):
+        if attr in ('theta', 'tau', 'n_var', 'n_sample', 'truncated', 'level', 'n_nodes'):
+            return 0
+        return TOP
+
+    def join_distinct(self, a, b):
+        return TOP
+
+    def binop(self, node, l, r, fr):
+        if isinstance(l, int) and isinstance(r, int):
+            return max(l, r)
+        if isinstance(l, int) and r is TOP or isinstance(r, int) and l is TOP:
+            return TOP
+        return TOP
+
+    def unaryop(self, node, operand, fr):
+        return operand
+
+    def compare(self, node, fr):
+        vals = [self.value(node.left, fr)] + [self.value(c, fr) for c in node.comparators]
+        return max(vals) if all(isinstance(v, int) for v in vals) else TOP
+
+    def subscript(self, node, base, fr):
+        sl = node.slice
+        if isinstance(base, Tup):
+            from .model import const_value
+            i = const_value(sl)
+            if isinstance(i, int) and -len(base.elems) <= i < len(base.elems):
+                return base.elems[i]
+            return TOP
+        if not isinstance(base, int):
+            return TOP
+        idx = sl.elts if isinstance(sl, ast.Tuple) else [sl]
+        drop = 0
+        for i in idx:
+            if isinstance(i, ast.Slice):
+                continue
+            v = self.value(i, fr)
+            if v == 0:
+                drop += 1
+            elif isinstance(i, (ast.Tuple, ast.List)) or v in (1, 2):
+                pass  # fancy index keeps the axis
+            else:
+                return TOP
+        return max(base - drop, 0) if base >= drop else TOP
+
+    def attribute(self, node, base, fr):
+        if node.attr in ('T', 'values', 'real'):
+            return base
+        if node.attr in ('x',):  # OptimizeResult.x
+            return 1
+        if node.attr in ('size', 'ndim'):
+            return 0
+        return TOP
+
+    def sequence(self, node, vals, fr):
+        return Tup(vals, 'list' if isinstance(node, ast.List) else 'tuple')
+
+    def _rank_of_literal(self, v):
+        """Rank of np.array(<literal>)."""
+        if isinstance(v, Tup):
+            if not v.elems:
+                return 1
+            inner = [self._rank_of_literal(e) for e in v.elems]
+            if all(isinstance(r, int) for r in inner) and len(set(inner)) == 1:
+                return inner[0] + 1
+            return TOP
+        return v
+
+    def external_call(self, name, node, fr):
+        a = node.args
+        if name is None:
+            return TOP
+        if name in ('numpy.array', 'numpy.asarray') and a:
+            return self._rank_of_literal(self.value(a[0], fr))
+        if name == 'numpy.column_stack' and a:
+            v = self.value(a[0], fr)
+            if isinstance(v, Tup) and all(isinstance(e, int) for e in v.elems):
+                return 2  # scalars / vectors become columns of a matrix
+            return TOP
+        if name in ('numpy.ravel', 'numpy.atleast_1d') and a:
+            v = self.value(a[0], fr)
+            return 1 if isinstance(v, int) else TOP
+        if name in ('numpy.squeeze',) and a:
+            return TOP
+        if name in ('float', 'int', 'len', 'numpy.sum', 'numpy.max', 'numpy.min', 'numpy.mean', 'min', 'max', 'abs',
+                    'numpy.isnan', 'numpy.log', 'numpy.exp', 'numpy.power', 'numpy.sqrt', 'numpy.abs', 'numpy.sign'):
+            if name in ('numpy.log', 'numpy.exp', 'numpy.power', 'numpy.sqrt', 'numpy.abs', 'numpy.sign', 'numpy.isnan', 'abs'):
+                vals = [self.value(x, fr) for x in a]
+                return max(vals) if vals and all(isinstance(v, int) for v in vals) else TOP
+            if name in ('min', 'max') and len(a) >= 2:
+                vals = [self.value(x, fr) for x in a]
+                return max(vals) if all(isinstance(v, int) for v in vals) else TOP
+            if name in ('float', 'int') and a:
+                v = self.value(a[0], fr)
+                if isinstance(v, int) and v > 0:
+                    self.sink(node, fr, v, f'{name}() of an array')
+                return 0
+            axis = kwarg(node, 'axis')
+            return 0 if axis is None else TOP
+        if name in ('numpy.zeros', 'numpy.ones', 'numpy.empty', 'numpy.full'):
+            sh = a[0] if a else None
+            if isinstance(sh, (ast.List, ast.Tuple)):
+                return len(sh.elts)
+            return 1
+        if name.startswith('numpy.random.'):
+            leaf = name.split('.')[-1]
+            if leaf in NP_RANDOM_SIZE_POS:
+                sz = kwarg(node, 'size', NP_RANDOM_SIZE_POS[leaf])
+                if sz is None:
+                    return 0
+                return len(sz.elts) if isinstance(sz, (ast.Tuple, ast.List)) else 1
+            return TOP
+        if name == 'scipy.integrate.quad':
+            return Tup([0, 0])
+        if name == 'scipy.optimize.brentq':
+            return 0
+        return TOP
+
+    def method_call(self, meth, node, recv, fr):
+        if meth == 'item':
+            return 0
+        if meth in ('ravel', 'flatten'):
+            return 1 if isinstance(recv, int) else None
+        if meth in ('copy', 'astype', 'clip'):
+            return recv if isinstance(recv, int) else None
+        if meth in ('sum', 'max', 'min', 'mean', 'all', 'any') and kwarg(node, 'axis') is None and not node.args:
+            return 0
+        return None
+
+    def sink(self, node, fr, rank, what):
+        if not hasattr(self, 'sinks'):
+            self.sinks = []
+        self.sinks.append((node, fr.fn, rank, what))
